@@ -102,6 +102,7 @@ func runC16(p *core.Prog, r *core.Result) {
 		"R16.8 elements are reported as kept (common) only where they are equal as values: in the diagonal walk of the edit-graph search every advance of the two cursors is on the edge where starlark.EqualDepth/Equal of a.Index(x) and b.Index(y) reported equality (no representation-level shortcut such as comparing the bytes of a string with the bytes of a bytes value)",
 		"R16.9 the reason of one target is computed from that target's diff alone: nothing reachable from diffEnv writes into a package-level slice or map (an append to, a filter-in-place on, or an element store into the key table), so what one call reports cannot depend on the calls before it",
 		"R16.10 the reason shown is the one that names the differing parts whenever the target itself is out of date: any other value that reaches the reason argument of TargetEvaluating (\"always\", the out-of-date dependencies, the failed last run) is selected only where upToDate() said true",
+		"R16.11 the reason and the diff name what differs from the environment the target last ran in: every successful return of (*function).evaluate lies behind a store of the current environment (function.newEnv) into function.oldEnv - on a Project that is run again the target would otherwise keep being compared with the environment loaded from disk, and be shown with the reason and diff of a change that has already been built",
 		"R16.5 the diff is nil exactly on the equal edge; every other successful return is a non-nil node",
 	}
 	r.NotDecided = []string{"that kept+deleted / kept+added elements reconstruct the two sequences (the O(NP) search and snake recording are behavioural)", "merging of delete+add into replace for all length combinations"}
@@ -182,6 +183,7 @@ func runC16(p *core.Prog, r *core.Result) {
 	// ---- R16.9
 	checkReasonsNotShared(p, r, "R16.9")
 	checkReasonOfOwnVerdictShown(p, r, "R16.10")
+	checkBaselineAdvancesWithRun(p, r, "R16.11")
 
 	// ---- R16.7
 	checkComposeMerge(p, r)
